@@ -4,20 +4,24 @@ from concurrent.futures import ThreadPoolExecutor
 
 import vlib
 
-# (cfg, key universe, map form, scales per row, TLC timeout)
+# (cfg, key universe, map form, scales per row, key universes (rounds), TLC timeout)
 QUICK = [
-    ("MultiAsset.cfg", "2+1", "total", 5, 120),
-    ("MultiAssetSquare.cfg", "2x2", "total", 5, 120),
-    ("MultiAssetZeros.cfg", "2+1", "partial", 5, 120),
-    ("MultiAssetTriples.cfg", "2+1", "total", 5, 120),
-    ("MultiAssetZerosTriples.cfg", "1x2", "partial", 5, 120),
+    ("MultiAsset.cfg", "2+1", "total", 5, 2, 400),
+    ("MultiAssetSquare.cfg", "2x2", "total", 5, 2, 400),
+    ("MultiAssetZeros.cfg", "2+1", "partial", 5, 2, 400),
+    ("MultiAssetTriples.cfg", "2+1", "total", 5, 2, 400),
+    ("MultiAssetZerosTriples.cfg", "1x2", "partial", 5, 2, 400),
 ]
-THOROUGH = QUICK + [
-    ("MultiAssetThorough.cfg", "2x2", "total", 2, 420),
-    ("MultiAssetZerosThorough.cfg", "2x2", "partial", 2, 420),
-    ("MultiAssetWideThorough.cfg", "3x2", "total", 1, 420),
-    ("MultiAssetTriplesThorough.cfg", "2+1", "total", 5, 560),
-    ("MultiAssetZerosTriplesThorough.cfg", "2+1", "partial", 5, 420),
+THOROUGH = [
+    ("MultiAsset.cfg", "2+1", "total", 5, 3, 240),
+    ("MultiAssetSquare.cfg", "2x2", "total", 5, 3, 240),
+    ("MultiAssetZeros.cfg", "2+1", "partial", 5, 3, 240),
+    ("MultiAssetTriples.cfg", "2+1", "total", 5, 3, 240),
+    ("MultiAssetZerosTriples.cfg", "1x2", "partial", 5, 3, 240),
+    ("MultiAssetThorough.cfg", "2x2", "total", 2, 1, 480),
+    ("MultiAssetZerosThorough.cfg", "2x2", "partial", 2, 2, 480),
+    ("MultiAssetTriplesThorough.cfg", "2+1", "total", 5, 2, 560),
+    ("MultiAssetZerosTriplesThorough.cfg", "2+1", "partial", 5, 2, 480),
 ]
 
 
@@ -45,17 +49,17 @@ def run(chk, replay=None):
     drv = vlib.go_build("c06")
 
     def tlc(item):
-        cfg, ks, mode, nsc, to = item
+        cfg, ks, mode, nsc, rounds, to = item
         return vlib.run_tlc("ledger/MultiAsset", cfg=cfg, timeout=to, workers=4,
                             env={"VERIF_SEED": chk.seed})
 
-    with ThreadPoolExecutor(max_workers=3 if chk.tier == "thorough" else 5) as ex:
+    with ThreadPoolExecutor(max_workers=4 if chk.tier == "thorough" else 5) as ex:
         results = list(ex.map(tlc, plan))
-    for (cfg, ks, mode, nsc, to), r in zip(plan, results):
+    for (cfg, ks, mode, nsc, rounds, to), r in zip(plan, results):
         vlib.tlc_must_pass(r, "MultiAsset/" + cfg)
         chk.add_tlc(cfg, r)
-    for (cfg, ks, mode, nsc, to), r in zip(plan, results):
+    for (cfg, ks, mode, nsc, rounds, to), r in zip(plan, results):
         if not os.path.exists(os.path.join(r.dir, "keys.ndjson")):
             raise vlib.MachineryError("MultiAsset/%s emitted no cases" % cfg)
-        vlib.run_driver(chk, drv, [ks, mode, r.dir, str(nsc)], timeout=900)
+        vlib.run_driver(chk, drv, [ks, mode, r.dir, str(nsc), str(rounds)], timeout=900)
     chk.exhaustive = False
